@@ -38,7 +38,16 @@
    A reader record is created by [RunRegR]; its id is its position in [recs].  [r_at] is the
    time at which its rcancelGrace goroutine was spawned (None: not spawned).  Ghost fields:
    [r_why] (which path ended it first), [r_by] (who spawned the grace goroutine), [owner]
-   (who is responsible for the token in o.lock), [res] (outcome of a thread's last call). *)
+   (who is responsible for the token in o.lock), [res] (outcome of a thread's last call).
+
+   MODELLING NOTE.  A hold's respCh is the cell [resps t] of its thread.  In Go every call has a
+   fresh channel; here a hold that its caller abandoned (the caller took the closeCh branch, which
+   is possible only after shutdown) may still be answered by Run into the cell that a LATER call
+   of the same thread reads, and a later answer overwrites an earlier one.  Every behaviour of the
+   code is a behaviour of the model (the later call may ignore a stale answer until it is
+   overwritten by its own, or take the closeCh branch); the model has a few more after shutdown.
+   Theorems (invariants) therefore remain valid for the code; the correspondence check accepts a
+   little more after shutdown than the code can do. *)
 From Kit Require Export C13.Common C13.Spec.
 Local Open Scope Z_scope.
 
